@@ -16,8 +16,8 @@ import (
 func init() {
 	register("C06", runC06, `Structural clauses of the ISO9660 round trip, decided statically.
 C06-a the image is written and read at the same translation: every device I/O of package iso9660 goes through the backend wrapped by backend.Sub(b, start, size) and adds no start of its own (rule C03-a applied to reads as well as writes).
-C06-b layout agreement (byte-layout extraction) of the primary and supplementary volume descriptors: every byte the parser maps to a field is written by the encoder from the same field with the same significance; both-endian fields carry one field on both halves.
-Not covered: the directory record / SUSP entries (their encoders return record lists the extractor does not model), walkTree, name mangling and collision resolution, sector layout, extent non-overlap.`)
+C06-b layout agreement (byte-layout extraction) of the primary and supplementary volume descriptors and of the fixed part of the directory record (extended attribute length, extent location, data length, recording time, volume sequence number): every byte the parser maps to a field is written by the encoder from the same field with the same significance; both-endian fields carry one field on both halves.
+Not covered: the directory record's flag byte, name field and SUSP / Rock Ridge entries, walkTree, name mangling and collision resolution, sector layout, extent non-overlap.`)
 	register("C07", runC07, `Structural clauses of the squashfs round trip, decided statically.
 C07-a layout agreement (byte-layout extraction) for the superblock, the inode header, 12 inode bodies, the directory header and entry and the fragment entry.
 C07-b exhaustiveness: parseInodeBody has a case for every inodeType constant and newCompressor for every compression constant.
@@ -34,8 +34,8 @@ Not covered: representable ranges (pre-1980 FAT dates), the 59/60-byte symlink b
 func runC06(w *World, r *Report) {
 	n := c03Translation(w, r, "C06-a", "filesystem/iso9660")
 	r.Floor("C06-a", n, 20)
-	runCodecFamily(w, r, "C06-b", codecPairsC06[:2])
-	r.Floor("C06-b", r.countRule("C06-b"), 2)
+	runCodecFamily(w, r, "C06-b", codecPairsC06)
+	r.Floor("C06-b", r.countRule("C06-b"), 3)
 }
 
 func runC07(w *World, r *Report) {
